@@ -53,15 +53,23 @@ func (c15) Cases(tier string, seed uint64) []fw.Case {
 	for i := 0; i < nl; i++ {
 		cs = append(cs, fw.Case{Seed: fw.CaseSeed(seed, "C15l", i), Name: fmt.Sprintf("live%d", i), Params: map[string]any{"what": "live", "requests": 30}})
 	}
+	// ranges of many hundred points on one shard: a range that is reported as failed must have left
+	// nothing behind, however the shard server writes it
+	for i := 0; i < max(2, nl/8); i++ {
+		cs = append(cs, fw.Case{Seed: fw.CaseSeed(seed, "C15b", i), Name: fmt.Sprintf("bigrange%d", i), Params: map[string]any{"what": "bigrange"}})
+	}
 	return cs
 }
 
 func (c15) RunCase(c fw.Case, env *fw.Env) *fw.CaseResult {
 	res := fw.NewResult()
 	rng := rand.New(rand.NewPCG(c.Seed, 15))
-	if c.Str("what", "") == "distribute" {
+	switch c.Str("what", "") {
+	case "distribute":
 		c15Distribute(res, rng, c.Int("n", 1000))
-	} else {
+	case "bigrange":
+		c15BigRange(res, rng, c, env)
+	default:
 		c15Live(res, rng, c, env)
 	}
 	return res
@@ -467,5 +475,101 @@ func c15Live(res *fw.CaseResult, rng *rand.Rand, c fw.Case, env *fw.Env) {
 		if req == 0 {
 			res.Sample(map[string]any{"per_shard_limit": perShard, "point_quota": quotaPoints, "collection_quota": quotaCols, "first_batch": n, "counts": counts})
 		}
+	}
+}
+
+// c15BigRange: one shard takes thousands of points; a request whose range fails on the shard server (an id
+// that is already stored, placed early / in the middle / late in the id-sorted batch) is reported as a failed
+// range, and the total must then be the previous total plus the points of the ranges NOT reported as failed.
+func c15BigRange(res *fw.CaseResult, rng *rand.Rand, c fw.Case, env *fw.Env) {
+	ports, perr := httpx.FreePorts(1)
+	if perr != nil {
+		res.Inconclusive++
+		return
+	}
+	node, err := newSingleNode(filepath.Join(env.Dir, "node"), ports[0], 6000, 1<<40)
+	if err != nil {
+		res.Note("node: %v", err)
+		res.Inconclusive++
+		return
+	}
+	defer node.Close()
+	plan := models.UserPlan{Name: "p", MaxCollections: 2, MaxCollectionPointCount: 50000, MaxPointSize: 1 << 20}
+	schema := models.IndexSchema{"n": gen.Int()}
+	g := gen.New(c.Seed, schema)
+	g.ExtraProb = 0
+	col := models.Collection{UserId: "bigrange", Id: "c", Replicas: 1, UserPlan: plan, IndexSchema: schema}
+	if err := node.CreateCollection(col); err != nil {
+		res.Violate("live-error", "C15:create", err.Error(), nil)
+		return
+	}
+	mk := func(n int) ([]model.Point, []models.Point) {
+		pts := make([]model.Point, n)
+		raw := make([]models.Point, n)
+		for i := range pts {
+			pts[i] = model.Point{Id: g.NewId(), Doc: g.Doc()}
+			raw[i] = models.Point{Id: pts[i].Id, Data: model.Encode(pts[i].Doc)}
+		}
+		return pts, raw
+	}
+	total := func() (int64, error) {
+		cc, err := node.GetCollection("bigrange", "c")
+		if err != nil {
+			return 0, err
+		}
+		cc.UserPlan = plan
+		infos, err := node.GetShardsInfo(cc)
+		if err != nil {
+			return 0, err
+		}
+		var sum int64
+		for _, si := range infos {
+			sum += si.PointCount
+		}
+		return sum, nil
+	}
+	stored := []models.Point{}
+	have := int64(0)
+	for round := 0; round < 4; round++ {
+		cc, _ := node.GetCollection("bigrange", "c")
+		cc.UserPlan = plan
+		n := 600 + rng.IntN(900)
+		_, raw := mk(n)
+		dupAt := -1
+		if round > 0 && len(stored) > 0 {
+			// an already stored id; the batch is sorted by id before it is split into ranges, so its
+			// position is chosen after sorting
+			sort.Slice(raw, func(a, b int) bool { return raw[a].Id.String() < raw[b].Id.String() })
+			dupAt = []int{0, n / 2, n - 1, 500 + rng.IntN(n-500)}[rng.IntN(4)]
+			// take a stored point whose id sorts near the wanted position: simply replace and re-sort
+			raw[dupAt] = stored[rng.IntN(len(stored))]
+		}
+		failed, err := node.InsertPoints(cc, raw)
+		res.Eval(true, "bigrange", round, n, dupAt)
+		res.Stat("big_range_requests", 1)
+		if err != nil {
+			res.Violate("live-error", "C15:bigrange-insert-error:"+errClass(err), fmt.Sprintf("insert of %d points failed as a whole: %v", n, err), nil)
+			return
+		}
+		failedPts := 0
+		for _, fr := range failed {
+			failedPts += fr.End - fr.Start
+		}
+		if dupAt >= 0 && failedPts == 0 {
+			res.Violate("conservation", "C15:bigrange-duplicate-accepted", fmt.Sprintf("a batch of %d points containing an already stored id reported no failed range", n), nil)
+		}
+		now, terr := total()
+		if terr != nil {
+			res.Violate("live-error", "C15:bigrange-total", terr.Error(), nil)
+			return
+		}
+		if now != have+int64(n-failedPts) {
+			res.Violate("conservation", "C15:bigrange-total", fmt.Sprintf("round %d: %d points held, request of %d points (already stored id at sorted position %d) reported %d points in failed ranges: the shards now hold %d points, expected %d", round, have, n, dupAt, failedPts, now, have+int64(n-failedPts)), nil)
+			return
+		}
+		if failedPts == 0 {
+			stored = append(stored, raw...)
+		}
+		have = now
 	}
 }
